@@ -113,6 +113,8 @@ class Verifier(Engine):
         name = ast.unparse(exc)
         if isinstance(exc, ast.Name) and exc.id in st.exc_names:
             name = st.exc_names[exc.id]  # `raise e` re-raises what this path caught
+        if name in ("IOError", "EnvironmentError"):
+            name = "OSError"  # aliases of OSError in Python 3
         st.path = st.path + [f"raise:{name}"]
         return [Outcome("raise", st, exc=name)]
 
@@ -578,6 +580,17 @@ class Verifier(Engine):
         """`with <external object> as name:`  - the context manager of an external library handle (a DB session, ...): entering and
         leaving it is trusted to have no effect on the verified state; the body is executed normally."""
         for item in s.items:
+            ce = item.context_expr
+            if isinstance(ce, ast.Call) and isinstance(ce.func, ast.Name) and ce.func.id == "open" and "open" in self.builtins:
+                # a file of the modelled file system (pyvc/fsmodel.py): the handle stands for the path
+                if item.optional_vars is None or not isinstance(item.optional_vars, ast.Name):
+                    raise Unsupported("with open(...) without `as name`", s)
+                h = self.expr(ce, st)
+                outs = self.flush_raises(st)
+                st.env[item.optional_vars.id] = h
+                if len(s.items) != 1:
+                    raise Unsupported("with open(...) together with other context managers", s)
+                return outs + self.block(s.body, st)
             if self.external_root(item.context_expr) is None and not (isinstance(item.context_expr, ast.Attribute) and
                                                                       item.context_expr.attr in (self.cur_contract.externals if self.cur_contract else [])):
                 raise Unsupported("with statement over a non-external object", s)
